@@ -46,6 +46,12 @@ def cases(tier, rng):
         kind = cards.pick(rng, cfg["kinds"])
         heavy = cards.pick(rng, ["total", "total", "light", "charm", "bottom"]) if i % 7 else "charm"
         pts = cards.rand_points(rng, g["xgrid"], n=2, q2lo=3.0, q2hi=2e4)
+        if i % 6 == 1:
+            # one runner-wide scale-variation manager serving several nf: points in the nf=3, 4, 5 regions, in random order
+            th.update(FNS="ZM-VFNS", PTO=2)
+            pts = cards.rand_points(rng, g["xgrid"], n=3, q2lo=3.0, q2hi=2e4)
+            for p_, q2 in zip(pts, rng.permutation([0.75 * th["mc"] ** 2, 0.5 * (th["mc"] ** 2 + th["mb"] ** 2), 4.0 * th["mb"] ** 2])):
+                p_["Q2"] = float(q2)
         out.append(dict(id=f"c05-{i}", mode=mode, kind=kind, heavy=heavy, grid=g, points=pts, memo_samples=[[int(rng.integers(0, 64)), int(rng.integers(0, 64))] for _ in range(10)], **cfg))
     return out
 
